@@ -334,3 +334,87 @@ func init() {
 		Floors: []string{"sowings_triggered_inside_window", "sowings_forced_at_window_end", "sowings_fixed_date", "harvests_triggered_before_latest_date", "harvests_forced_at_latest_date", "harvests_fixed_date", "auto_irrigations", "auto_n_applications", "crop_records_checked", "cases_fixed_sowing_right_after_observed_harvest", "permanent_crop_followed_by_itself"}},
 		func() []Monitor { return []Monitor{&monC16{}} }}
 }
+
+// ------------------------------------------------------------------------------------------------------------------
+// postponed tillage meeting the next scheduled one (C02, C07): with automatic harvest a tillage dated inside the standing
+// crop is postponed two days at a time until the crop is off the field. A probe run finds the day the first crop of the
+// period is harvested; every second automatic-harvest case is then rewritten so that one mixing tillage is dated a few days
+// before that day (inside the crop) and the next one on / one / two days after it: after the postponement two tillages are due
+// within the same one or two days. The N bookkeeping must close whatever the routine makes of the two events.
+// ------------------------------------------------------------------------------------------------------------------
+func tillCollisionScenario(prop string, seed uint64, idx int) *Scenario {
+	sc := GenScenario(prop, seed, idx)
+	if !sc.AutoHarvest || len(sc.Rotation) < 2 {
+		return sc
+	}
+	r := NewRng(mix(mix(seed, uint64(idx)), 2727))
+	if !r.Bool(0.5) {
+		return sc
+	}
+	probe := &monHarvestProbe{}
+	runScenario(sc, []Monitor{probe}, "")
+	h, entry := 0, 0
+	for _, hv := range probe.harvests {
+		if hv[1] >= 1 && hv[1] < len(sc.Rotation) && hv[0] > sc.Rotation[hv[1]].Sow.Zeit()+20 {
+			h, entry = hv[0], hv[1]
+			break
+		}
+	}
+	if h == 0 || h >= sc.End.Zeit()-5 {
+		return sc
+	}
+	sow := sc.Rotation[entry].Sow.Zeit()
+	ta := h - r.Range(0, 1) - 2*r.Range(0, 4)
+	if ta <= sow+1 {
+		ta = h - 1
+	}
+	tb := h + r.Range(0, 2)
+	if tb <= ta {
+		tb = ta + 1
+	}
+	var tl []TillEvent
+	for _, t := range sc.Till {
+		if t.D.Zeit() < sow-1 {
+			tl = append(tl, t)
+		}
+	}
+	tl = append(tl, TillEvent{D: DateOfZeit(ta), Depth: pickI(r, []int{10, 15, 20, 25, 30}), Type: 1})
+	tl = append(tl, TillEvent{D: DateOfZeit(tb), Depth: pickI(r, []int{10, 20, 30, 35}), Type: 1})
+	if r.Bool(0.5) {
+		tl = append(tl, TillEvent{D: DateOfZeit(tb + r.Range(1, 2)), Depth: pickI(r, []int{10, 20, 30}), Type: 1})
+	}
+	next := sc.End.Zeit() + 1000
+	if entry+1 < len(sc.Rotation) {
+		next = sc.Rotation[entry+1].Sow.Zeit()
+		if sc.AutoSow && sc.Rotation[entry+1].WinOpen.Y != 0 && sc.Rotation[entry+1].WinOpen.Zeit() < next {
+			next = sc.Rotation[entry+1].WinOpen.Zeit()
+		}
+	}
+	for _, t := range sc.Till {
+		if t.D.Zeit() > tb+4 {
+			tl = append(tl, t)
+		}
+	}
+	// nothing of the new train may reach the sowing of the following crop
+	var keep []TillEvent
+	for _, t := range tl {
+		if t.D.Zeit() <= h+3 && t.D.Zeit() >= next-1 {
+			continue
+		}
+		keep = append(keep, t)
+	}
+	sc.Till = keep
+	sc.TillCollision = true
+	return sc
+}
+
+// finalScenario: the scenario a case index stands for, after the property's own rewriting around observed events
+func finalScenario(prop string, seed uint64, idx int) *Scenario {
+	switch prop {
+	case "C16":
+		return c16Scenario(seed, idx)
+	case "C02", "C07":
+		return tillCollisionScenario(prop, seed, idx)
+	}
+	return GenScenario(prop, seed, idx)
+}
